@@ -160,7 +160,9 @@ func (g *exprGen) atom(t ty) string {
 		if g.r.Intn(2) == 0 {
 			return g.pick(envVars[tMap]...)
 		}
-		return g.pick("[:]", "['a': 1]", "['k': 'v', 'j': 2]", "['z': [1, 2], 'y': ['q': 0]]", "['a': 1,]", "['k': 'v', 'j': 2, ]")
+		return g.pick("[:]", "['a': 1]", "['k': 'v', 'j': 2]", "['z': [1, 2], 'y': ['q': 0]]", "['a': 1,]", "['k': 'v', 'j': 2, ]",
+			// keys that the printer has to re-quote: control characters, quotes, backslashes, non-ASCII
+			"['\\u0001': 1]", "['a\\u001fbcde': 2, '\\u00010': 3, '\\u0010': 4]", "['\\u007f': 1]", "['k\\ny': 1, 'tab\\t': 2]", "['q\\'': 1, 'b\\\\': 2, 'dq\"': 3]", "['é': 1, '\\u00e9x': 2]", "['': 0]")
 	}
 	return "null"
 }
